@@ -7,8 +7,8 @@ use crate::runner::*;
 use crate::tape::Tape;
 
 pub const RULE: &str = "unsigned/signed vint encoders for every width 1..8 and the default width, decoders on byte slices of length 0..9, \
-and the well-formed-id predicate, each compared with an independent codec on u128/i128. Exhaustive blocks (values < 2^21 quick / 2^26 thorough, \
-|v| < 2^20 / 2^25 signed, all slices of length <= 2 quick / <= 3 thorough, ids < 2^24), the boundary lattice (±2 around every 2^(7k), 2^(7k-1), 2^(8k), 2^56, 2^63, 2^64-1) \
+and the well-formed-id predicate, each compared with an independent codec on u128/i128. Exhaustive blocks (values < 2^23 quick / 2^28 thorough, \
+|v| < 2^22 / 2^27 signed, all slices of length <= 3, ids < 2^24), the boundary lattice (±2 around every 2^(7k), 2^(7k-1), 2^(8k), 2^56, 2^63, 2^64-1) \
 and proptest-generated random values/slices. Non-trivial: multi-byte encodings (value >= 2^7 or |v| >= 2^6), non-empty slices, ids >= 0x80; distinct by value (enumerations are distinct by construction).";
 
 pub const ASSUMPTIONS: &[&str] = &[
@@ -387,14 +387,14 @@ pub fn run(rc: &mut RunCtx) {
     rc.run_indexed(STAGES[5], ls.len() as u64, true, &|i| Input::Args(vec![ls[i as usize] as u64]));
     rc.run_indexed(STAGES[6], lu.len() as u64, true, &|i| Input::Args(vec![lu[i as usize]]));
     // exhaustive blocks
-    let ubits = if q { 21 } else { 26 };
+    let ubits = if q { 23 } else { 28 };
     rc.run_indexed(STAGES[0], (1u64 << ubits) / BLOCK, true, &|i| Input::Args(vec![i]));
-    let sbits = if q { 20 } else { 25 };
+    let sbits = if q { 22 } else { 27 };
     let nblocks = (2u64 << sbits) / BLOCK;
     rc.run_indexed(STAGES[1], nblocks, true, &|i| Input::Args(vec![(i as i64 - (nblocks / 2) as i64) as u64]));
     rc.run_indexed(STAGES[2], (1u64 << 24) / BLOCK, true, &|i| Input::Args(vec![i]));
     // slices: len 0, len 1 (prefix empty), len 2 (256 prefixes), len 3 (65536 prefixes, thorough)
-    let maxlen = if q { 2 } else { 3 };
+    let maxlen = 3;
     let mut plan: Vec<(u64, u64)> = vec![(0, 0), (1, 0)];
     for p in 0..256u64 {
         plan.push((2, p));
@@ -405,7 +405,7 @@ pub fn run(rc: &mut RunCtx) {
         }
     }
     rc.run_indexed(STAGES[3], plan.len() as u64, true, &|i| Input::Args(vec![plan[i as usize].0, plan[i as usize].1]));
-    rc.run_pt(STAGES[7], rc.pick(200_000, 4_000_000), (24, 24));
+    rc.run_pt(STAGES[7], rc.pick(600_000, 10_000_000), (24, 24));
     rc.require_label("random", "slice_need_more", 20_000);
     rc.require_label("random", "slice_len9", 20_000);
     if !rc.quick() {
